@@ -163,6 +163,10 @@ PARSE_MAPPINGS_QUOTED = [
     [("k1", ["w1  w2"]), ("k2", ["v3 w3"])],
     [("k1", ["w1=w2"]), ("k2", ["v3"])],
 ]
+# ...and, when the field separator carries a blank, a semicolon (not followed / surrounded by blanks) inside a quoted value
+PARSE_MAPPINGS_QUOTED_SEMI = [
+    [("k1", ["w1;w2"]), ("k2", ["v3"])],
+]
 
 
 def template_astr(cfg, mapping_):
@@ -176,12 +180,12 @@ def template_astr(cfg, mapping_):
             parts.append(t[1][4:])
         elif t[0] == "enc":
             parts.append(Sym("enc(%s)" % t[1], "str", True))
-        elif " " in t[1] or "=" in t[1]:
-            # a value with blanks or '=' inside (legitimate inside quotes): holes joined by the literal characters
+        elif " " in t[1] or "=" in t[1] or ";" in t[1]:
+            # a value with blanks, '=' or ';' inside (legitimate inside quotes): holes joined by the literal characters
             import re as _re
-            for piece in _re.split(r"([ =]+)", t[1]):
+            for piece in _re.split(r"([ =;]+)", t[1]):
                 if piece:
-                    parts.append(piece if not piece.strip(" =") else Sym(piece, "str", True))
+                    parts.append(piece if not piece.strip(" =;") else Sym(piece, "str", True))
         else:
             parts.append(Sym(t[1], "str", True))
     return AStr(parts)
@@ -196,10 +200,10 @@ def value_name(v, decoded=False):
     """How names_of renders the value named v (decoded: the parser is expected to percent-decode it)."""
     if v.startswith("lit:"):
         return _percent_decode(v[4:]) if decoded else v[4:]
-    if " " not in v and "=" not in v:
+    if " " not in v and "=" not in v and ";" not in v:
         return v
     import re as _re
-    return "".join(p if not p.strip(" =") else "\u27e6%s\u27e7" % p for p in _re.split(r"([ =]+)", v) if p)
+    return "".join(p if not p.strip(" =;") else "\u27e6%s\u27e7" % p for p in _re.split(r"([ =;]+)", v) if p)
 
 
 def _unquote_summary(interp, pos, kw, node):
@@ -228,8 +232,8 @@ def parse_run(ctx, func, text, dialect, pattern, ignore=False):
     from .absint import RegexVal, TypeVal
     ov = {("constants", "ignore_url_escape_characters"): ignore,
           ("feature", "dict_class"): TypeVal("dict"), ("attributes", "dict_class"): TypeVal("dict"), ("parser", "dict_class"): TypeVal("dict")}
-    if pattern is not None:
-        ov[("parser", pattern[0])] = RegexVal(pattern[1])
+    for name_, pattern_ in (pattern.items() if isinstance(pattern, dict) else ([pattern] if pattern is not None else [])):
+        ov[("parser", name_)] = RegexVal(pattern_)
     interp = Interp(ctx, overrides=ov)
     interp.ext_summaries["urllib.parse.unquote"] = _unquote_summary
     interp.hole_free_of = STRUCTURAL
@@ -251,3 +255,74 @@ def names_of(quals):
                 vs.append(v)
         out[k_] = vs
     return out
+
+
+# ---------------------------------------------------------------------------------------------------------------------
+# Literal round trip: concrete values that contain the structural characters themselves.  Printing (with the dialect) and
+# parsing the printed text (with that dialect, and inferring it) must give the mapping back; in a gff3 dialect the printed
+# text is the one the statement's encode set prescribes.
+RESERVED = set("\t\n\r%;=&,") | {chr(i) for i in range(32)} | {chr(127)}
+LITERAL_GFF3 = [
+    [("ID", ["g1"]), ("Note", ["kinase, putative", "a;b=c"]), ("pct", ["100%", "%41", "x%2Cy", "%2525"]), ("ctl", ["tab\there", "amp&ersand"]), ("flag", [])],
+    [("k", ["v"]), ("Parent", ["p1", "p2"]), ("partial", [])],
+]
+# GTF-style dialects have no escaping: values free of ';', '"', ',' and control characters
+LITERAL_PLAIN = [
+    [("gene_id", ["g1"]), ("note", ["a b", "x=y"]), ("pct", ["100%", "%41"])],
+]
+
+
+def spec_encode(v):
+    return "".join("%%%02X" % ord(c) if c in RESERVED else c for c in v)
+
+
+def spec_text(cfg, mapping_, encode):
+    """The attribute column the dialect denotes for a concrete mapping (independent of the code)."""
+    toks = []
+    for t in spec_tokens(dict(cfg, _ignore=not encode), mapping_):
+        if isinstance(t, str):
+            toks.append(t)
+        else:
+            toks.append(spec_encode(t[1]) if t[0] == "enc" else t[1])
+    return "".join(toks)
+
+
+def literal_roundtrip(ctx, rc, sk, pat, cfg, mapping_, ignore=False):
+    """(printed text or ('raise', ..), {mode: parsed mapping or ('raise', ..)}) for one dialect and one concrete mapping."""
+    from .absint import RegexVal, TypeVal
+    dialect = {k: v for k, v in cfg.items() if not k.startswith("_")}
+    dialect["order"] = [k for k, _v in mapping_]
+    ov = {("constants", "ignore_url_escape_characters"): ignore,
+          ("feature", "dict_class"): TypeVal("dict"), ("attributes", "dict_class"): TypeVal("dict"), ("parser", "dict_class"): TypeVal("dict")}
+    for name_, pattern_ in (pat.items() if isinstance(pat, dict) else ([pat] if pat is not None else [])):
+        ov[("parser", name_)] = RegexVal(pattern_)
+    interp = Interp(ctx, overrides=ov)
+    from .scenario import install_json
+    interp.ext_summaries["urllib.parse.unquote"] = _unquote_summary
+    keyvals = {k: list(vs) for k, vs in mapping_}
+    traces = interp.run(rc, {"keyvals": keyvals, "dialect": dict(dialect), "keep_order": True, "sort_attribute_values": False})
+    if len(traces) != 1:
+        return ("fork", len(traces)), {}
+    t = traces[0]
+    if t.result[0] != "return":
+        return ("raise", t.result[1]), {}
+    text = t.result[1]
+    if isinstance(text, AStr):
+        text = text.simplify()
+    if not isinstance(text, str):
+        return ("abstract", repr(text)[:80]), {}
+    out = {}
+    for mode, d in (("supplied", dict(dialect)), ("inferred", None)):
+        tr = interp.run(sk, {"keyval_str": text, "dialect": d})
+        if len(tr) != 1:
+            out[mode] = ("fork", len(tr))
+            continue
+        r = tr[0].result
+        if r[0] != "return":
+            out[mode] = ("raise", r[1])
+        elif not (isinstance(r[1], tuple) and len(r[1]) == 2 and isinstance(r[1][0], dict)):
+            out[mode] = ("odd", repr(r[1])[:60])
+        else:
+            q = r[1][0]
+            out[mode] = {k: ([x.simplify() if isinstance(x, AStr) else x for x in v] if isinstance(v, list) else ("not a list", v)) for k, v in q.items()}
+    return text, out
